@@ -13,14 +13,14 @@ import (
 	"verifharness/internal/val"
 )
 
-var c13Workloads = []string{"separate-docs.fresh-selectors", "separate-docs.cached-selectors", "shared-doc.queries", "internal-parallelism", "shared-doc.execreader"}
+var c13Workloads = []string{"separate-docs.fresh-selectors", "separate-docs.cached-selectors", "shared-doc.queries", "internal-parallelism", "shared-doc.execreader", "reexec.results-reused"}
 
 func init() {
 	floor := []string{}
 	for _, w := range c13Workloads {
 		floor = append(floor, "workload."+w)
 	}
-	floor = append(floor, "shared.where", "shared.subquery", "shared.exists", "shared.in-subquery", "shared.order", "shared.group", "shared.distinct", "shared.marker-between", "shared.cte-wrapped", "par.join", "par.join-fail", "par.async", "par.spinasync", "par.await-async", "par.async-deep", "par.join-like", "par.join-stateful", "cached.open-range", "reader.fn-spelling")
+	floor = append(floor, "shared.where", "shared.subquery", "shared.exists", "shared.in-subquery", "shared.order", "shared.group", "shared.distinct", "shared.marker-between", "shared.cte-wrapped", "par.join", "par.join-fail", "par.async", "par.spinasync", "par.await-async", "par.async-deep", "par.join-like", "par.join-stateful", "reexec.results-reused", "cached.open-range", "reader.fn-spelling")
 	fw.Register(&fw.Prop{
 		ID:    "C13",
 		Title: "Concurrent queries are free of data races, crashes and cross-talk",
@@ -50,6 +50,7 @@ type c13Job struct {
 	opts     OptSet
 	multiset bool
 	reader   bool // ExecReader(doc, sql) instead of a query
+	built    *genql.Query // an already constructed query, executed again (only ever by one goroutine)
 	refWant  bool // want / wantErr come from the reference model, not from a run in this process
 	feat     string
 	want     string
@@ -71,7 +72,12 @@ func (j *c13Job) exec() (string, bool, any, bool) {
 		}
 		return val.Canon(normEmpty(v)), false, nil, v != nil
 	}
-	o := Run(j.doc, j.sql, j.opts.Options()...)
+	var o Outcome
+	if j.built != nil {
+		o = execBuilt(j.built)
+	} else {
+		o = Run(j.doc, j.sql, j.opts.Options()...)
+	}
 	if o.Panic != nil {
 		return "", false, o.Panic, false
 	}
@@ -221,7 +227,8 @@ func c13Run(c *fw.Case) {
 					// work of a subquery, a CTE of the scope that has not been read yet
 					jn := gen.Pick(c.R, []string{"PARALLEL JOIN", "PARALLEL LEFT JOIN", "PARALLEL STRAIGHT_JOIN"})
 					on := gen.Pick(c.R, []string{"x.n1 = y.un1 AND ONCE.VFONCE(true, 1, 1)", "x.n1 >= y.un1 AND EXISTS (SELECT e FROM `x.arr` WHERE e >= 0)", "x.n1 = y.un1 OR EXISTS (SELECT 1 FROM `<-.c9`)",
-						"x.n1 >= y.un1 AND x.n1 IN (SELECT un1 FROM `<-u1`)", "x.s1 = y.us1 OR VF(true, 1, 2)"})
+						"x.n1 >= y.un1 AND x.n1 IN (SELECT un1 FROM `<-u1`)", "x.s1 = y.us1 OR VF(true, 1, 2)",
+						"x.n1 = y.un1 AND COUNT(*) BETWEEN 0 AND 500", "x.n1 >= y.un1 AND SUM(y.un1) IS NULL", "x.n1 = y.un1 AND MAX(x.n1) IS NOT NULL AND COUNT(*) BETWEEN 0 AND 9"})
 					sql, feat = "WITH c9 AS (SELECT rid FROM t1) SELECT x.rid, y.un1 FROM t1 x "+jn+" u1 y ON "+on, "par.join-stateful"
 				case 6:
 					// ASYNC calls, not wrapped in AWAIT, below the second FROM dimension
@@ -257,6 +264,36 @@ func c13Run(c *fw.Case) {
 		if !shared {
 			sharedDoc = nil
 		}
+	case "reexec.results-reused":
+		// one goroutine executes a Query object again and again while the others
+		// use the rows its FIRST execution returned as the document of their own
+		// queries: an execution that is over writes nothing into what it returned
+		d := newRichDoc(c)
+		for len(d.t.Rows) < 2 {
+			d = newRichDoc(c)
+		}
+		qsql := gen.Pick(c.R, []string{"SELECT *, ASYNC.VF(n1, rid, 1) AS a FROM t1", "SELECT rid, n1, AWAIT(ASYNC.VF(s1, rid, 2)) AS b, (SELECT e FROM arr) AS es FROM t1", "SELECT * FROM t1 WHERE n1 >= n1", "SELECT q.rid, q.a FROM (SELECT rid, ASYNC.VF(n1, rid, 1) AS a FROM t1) q"})
+		q, nerr := newSafe(d.fresh(), qsql)
+		if q == nil || nerr.Err != nil {
+			c.Discard("query could not be constructed")
+			return
+		}
+		first := execBuilt(q)
+		if !first.OK() {
+			c.Discard("first execution failed")
+			return
+		}
+		sharedDoc = map[string]any{"r": first.Rows}
+		for i := 0; i < iters+3; i++ {
+			jobs[0] = append(jobs[0], &c13Job{built: q, sql: qsql + "  -- (the same Query object, executed again)", feat: "reexec.results-reused"})
+		}
+		for g := 1; g < G; g++ {
+			for i := 0; i < iters+2; i++ {
+				rsql := gen.Pick(c.R, []string{"SELECT * FROM r", "SELECT rid FROM r WHERE rid >= 0", "SELECT DISTINCT * FROM r", "SELECT COUNT(*) AS n FROM r"})
+				jobs[g] = append(jobs[g], &c13Job{doc: sharedDoc, sql: rsql, feat: "reexec.results-reused"})
+			}
+		}
+		feats = append(feats, "reexec.results-reused")
 	case "shared-doc.execreader":
 		// the "alone" results are computed after the concurrent run: whatever a
 		// first evaluation of a text does to process-wide state must happen
